@@ -61,6 +61,7 @@ let run_solo c cfg t =
     | None -> (cfg, List.rev acc)
   in go cfg [] 0
 
+let opt_int_early opts k d = match List.assoc_opt k opts with Some v -> (try int_of_string v with _ -> d) | None -> d
 let mismatches = ref 0
 let total_runs = ref 0
 
@@ -132,11 +133,13 @@ let process_runs (type sh ts l op ret) (c : (sh, ts, l, op, ret) comp) (s : scn)
                     if c.mach.m_silent l then cov c1 (n - 1)
                   | _ -> ())
                | None -> () in
-           cov cfg 8;
+           if !runs <= 48 || !runs land 63 = 0 then cov cfg 8;
            add_evs evs; go cfg' rest (pos + 1)
          | None -> Error pos)
     in
-    let fine = List.mem_assoc "fine" s.opts || List.mem_assoc "nomodel" s.opts in
+    let sample = opt_int_early s.opts "sample" 1 in
+    let fine = List.mem_assoc "fine" s.opts || List.mem_assoc "nomodel" s.opts
+               || (sample > 1 && !runs mod sample <> 1 && !vline = None) in
     let cfg1 = { cfg1 with c_sh = c.with_choices cfg1.c_sh !choices } in
     let res = if fine then Ok cfg1 else go cfg1 !sline 0 in
     let model_h = if fine then !hline else Buffer.contents buf in
